@@ -805,9 +805,13 @@ func (e *Env) Step(i int, op *Op) error {
 		if !aIntact() || !bIntact() || !cIntact() {
 			return e.fail("SizeOf modified its range arguments or the caller's bytes behind them")
 		}
-		total := int64(e.FS.TotalBytes(storage.TypeTable))
-		if len(sz) != 3 || sz[0] < 0 || sz[2] < 0 || sz[0]+sz[2] != sz[1] || sz[1] > total {
-			return e.fail("SizeOf([%q,%q) [%q,%q) [%q,%q)) = %v: not additive, negative or above the %d table bytes in storage", ks[0], ks[1], ks[0], ks[2], ks[1], ks[2], sz, total)
+		if len(sz) != 3 || sz[0] < 0 || sz[2] < 0 || sz[0]+sz[2] != sz[1] {
+			return e.fail("SizeOf([%q,%q) [%q,%q) [%q,%q)) = %v: negative or not additive", ks[0], ks[1], ks[0], ks[2], ks[1], ks[2], sz)
+		}
+		// the bound by the table bytes in storage only holds when nothing runs in the background
+		// (otherwise the version SizeOf looked at may hold tables that are gone by now)
+		if total := int64(e.FS.TotalBytes(storage.TypeTable)); e.C.Det && sz[1] > total {
+			return e.fail("SizeOf([%q,%q)) = %d with only %d table bytes in storage (settled state)", ks[0], ks[2], sz[1], total)
 		}
 		e.St.SizeOfs++
 		return nil
